@@ -67,8 +67,9 @@ type CellEv struct {
 	Opaque      int      `json:"opaque"`
 	Unstable    int      `json:"unstable"`
 	NLeaves     int      `json:"nleaves"`
-	Mutated     int      `json:"mutated"` // 1: the recipe value changed across the calls (public fields)
-	Hidden      int      `json:"hidden"`  // 1: derived unexported fields of the caller's value became non-nil
+	TwinDiff    int      `json:"twinDiff"` // 1: a fresh recipe with the same field values gave different results on the same bytes
+	Mutated     int      `json:"mutated"`  // 1: the recipe value changed across the calls (public fields)
+	Hidden      int      `json:"hidden"`   // 1: derived unexported fields of the caller's value became non-nil
 }
 
 func setEnv(maxTrials, failRateOne int) func() {
@@ -102,15 +103,23 @@ func hiddenNonNil(r interface{}) bool {
 // runCharCell enumerates (or samples paths of) one character recipe and emits its events.
 func runCharCell(em *Emitter, id int, sc Scenario, seed int64) {
 	sc.Char.norm()
+	r := sc.Char.Recipe()
+	for _, ev := range charCellEvents(id, sc, seed, &r) {
+		em.Emit(ev)
+	}
+}
+
+// charCellEvents runs the scenario on the recipe value *rp (calls are made on the value, as a caller would)
+// and returns the cell, leaf and cellend events.
+func charCellEvents(id int, sc Scenario, seed int64, rp *spg.CharRecipe) (events []interface{}) {
 	restore := setEnv(sc.MaxTrials, sc.FailRateOne)
 	defer restore()
-	r := sc.Char.Recipe()
-	before := CharSpecOf(r)
+	before := CharSpecOf(*rp)
 	cell := CellEv{Op: "cell", ID: id, Tag: sc.Tag, Kind: "char", Char: *sc.Char, MaxTrials: spg.MaxTrials, FailRateOne: sc.FailRateOne,
 		Count: []int{}, Den: []int{}, DenInt: -1}
 	func() {
 		defer func() { recover() }()
-		cell.Alpha = CPs(r.Alphabet())
+		cell.Alpha = CPs(rp.Alphabet())
 	}()
 	if cell.Alpha == nil {
 		cell.Alpha = []int{}
@@ -121,10 +130,10 @@ func runCharCell(em *Emitter, id int, sc Scenario, seed int64) {
 				cell.Ent = Dyadic{K: "panic"}
 			}
 		}()
-		cell.Ent = DyadicOf(r.Entropy())
-		cell.Ent2 = DyadicOf(r.Entropy())
-		cell.SP = DyadicOf(r.SuccessProbability())
-		c := spg.VerifCount(r)
+		cell.Ent = DyadicOf(rp.Entropy())
+		cell.Ent2 = DyadicOf(rp.Entropy())
+		cell.SP = DyadicOf(rp.SuccessProbability())
+		c := spg.VerifCount(*rp)
 		cell.Count = Limbs(c)
 		if c.Sign() < 0 {
 			cell.CountNeg = 1
@@ -139,7 +148,7 @@ func runCharCell(em *Emitter, id int, sc Scenario, seed int64) {
 	var leaves []lf
 	body := func(res *GenRes) func() {
 		return func() {
-			p, err := r.Generate()
+			p, err := rp.Generate()
 			*res = ResOf(p, err, nil)
 		}
 	}
@@ -224,11 +233,11 @@ func runCharCell(em *Emitter, id int, sc Scenario, seed int64) {
 			cell.Complete = 1
 		}
 	}
-	after := CharSpecOf(r)
+	after := CharSpecOf(*rp)
 	if !reflect.DeepEqual(before, after) {
 		cell.Mutated = 1
 	}
-	if hiddenNonNil(r) {
+	if hiddenNonNil(*rp) {
 		cell.Hidden = 1
 	}
 	cell.NLeaves = len(leaves)
@@ -249,11 +258,12 @@ func runCharCell(em *Emitter, id int, sc Scenario, seed int64) {
 	if len(e.Unreachable) > 0 {
 		cell.Unstable = 1
 	}
-	em.Emit(cell)
+	events = append(events, &cell)
 	for _, l := range leaves {
-		em.Emit(l.ev)
+		events = append(events, l.ev)
 	}
-	em.Emit(map[string]interface{}{"op": "cellend", "id": id})
+	events = append(events, map[string]interface{}{"op": "cellend", "id": id})
+	return events
 }
 
 // ---- seeded scenario generators ----
@@ -373,7 +383,12 @@ func cmdCharTree(args []string) {
 			continue
 		}
 		n0 := em.N
-		runCharCell(em, i, sc, *seed*1000003+int64(i))
+		if !withDeadline(func() { runCharCell(em, i, sc, *seed*1000003+int64(i)) }, cellDeadline) {
+			// the library did not come back (e.g. an exponential count or an unbounded loop): keep what is complete, stop this shard
+			em.Close()
+			fmt.Printf("{\"cells\":%d,\"leaves\":%d,\"timeout\":%d}\n", cells, leaves, i)
+			os.Exit(5)
+		}
 		cells++
 		leaves += em.N - n0 - 2
 	}
